@@ -76,6 +76,7 @@ def pairing(rep, us):
     g = call_graph(units)
     from_destroy = reach(g, "tp_destroy")
     acquired = []
+    desc_fields = []
     for u in units:
         for fn in u.function_list:
             if fn.relfile() not in (tp.TP_C, tp.MSG_C) or fn.name.startswith("tpt_msg_async") or fn.name == "tpt_msg_cbsend":
@@ -92,7 +93,44 @@ def pairing(rep, us):
                 if tgt is None:
                     continue
                 f = field_suffix(tgt)
-                acquired.append((fn, c, f, core.strip_casts(tgt)))
+                store_pos = pos
+                t0 = core.strip_casts(tgt)
+                if f is None and how == "assign" and t0.get("k") == "ref" and t0.get("dk") == "local":
+                    # result kept in a local first: follow it into the field it is copied to
+                    lid = t0.get("id")
+                    for p2, r2, x2, ps2 in fn.nodes():
+                        if x2.get("k") == "bin" and x2["op"] == "=" and core.is_ref(core.strip_casts(x2["y"]), id=lid) and \
+                                field_suffix(x2["x"]) is not None:
+                            f = field_suffix(x2["x"])
+                            t0 = core.strip_casts(x2["x"])
+                            store_pos = p2
+                            break
+                acquired.append((fn, c, f, t0))
+                if f is not None and c["fn"] == "epoll_create1":
+                    desc_fields.append((fn, c, f, pos, store_pos))
+    # a descriptor field that the uninit path closes without a validity test must hold the call's result (or its -1) on
+    # every exit of the acquiring function: the object was zeroed before, and 0 is somebody else's valid descriptor
+    for fn, c, f, cpos, spos in desc_fields:
+        guarded = False
+        for u in units:
+            for rf in u.function_list:
+                if rf.name in from_destroy:
+                    for pos, root, rc, ps in rf.calls({"close"}):
+                        if field_suffix(rc["args"][0]) == f:
+                            for bid, cnd, atom in r_mpt.branches_with(rf, lambda x, ps_: x.get("k") == "mem" and x.get("f") == f):
+                                guarded = True
+        exits = [pos for pos, root, x, ps in fn.nodes() if x.get("k") == "ret" and x is root and cpos[0] in fn.reachable_blocks() and
+                 (pos[0] in fn.reach_from([cpos[0]]) or pos[0] == cpos[0])]
+        desc = "the descriptor field '%s' holds the result of %s() on every exit of %s (it is closed without a validity test)" % (f, c["fn"], fn.name)
+        rep.functions.add(fn.name)
+        if guarded:
+            rep.proved("R-PAIR", fn, "defined:%s" % f, desc, "the release tests the field first", c["ln"])
+        elif all(fn.pos_dominates(spos, e) for e in exits) and exits:
+            rep.proved("R-PAIR", fn, "defined:%s" % f, desc, "the store dominates all %d exits after the call" % len(exits), c["ln"])
+        else:
+            bad = [e for e in exits if not fn.pos_dominates(spos, e)]
+            rep.violated("R-PAIR", fn, "defined:%s" % f, desc, "an exit after the call (line %s) is reached without the store: the field keeps the zero of the "
+                         "preceding memset, and the error path closes descriptor 0" % (fn.blocks[bad[0][0]].elems[bad[0][1]].get("ln") if bad else "?"), c["ln"])
     n = 0
     for fn, c, f, tgt in acquired:
         if f is None:
